@@ -295,6 +295,10 @@ class Future(BaseFuture):
     ) -> None:
         if isinstance(other, str):
             other = parse_register(other)
+        elif isinstance(other, RegFuture):
+            # A RegFuture is an `int` subclass: use its register, not its int value
+            assert other.reg is not None
+            other = other.reg
 
         # Store self in a temporary register
         tmp_register = self.builder._mem_mgr.get_inactive_register(activate=True)
@@ -473,6 +477,10 @@ class RegFuture(BaseFuture):
         assert self.reg is not None
         if isinstance(other, str):
             other = parse_register(other)
+        elif isinstance(other, RegFuture):
+            # A RegFuture is an `int` subclass: use its register, not its int value
+            assert other.reg is not None
+            other = other.reg
 
         # Store self in a temporary register
         load_commands = []
